@@ -206,6 +206,12 @@ static AllocResult call_alloc(const Op& op, mi_heap_t* h) {
       char* s = (op.code == OP_strdup) ? (h ? mi_heap_strdup(h, tmp) : mi_strdup(tmp)) : (h ? mi_heap_strndup(h, tmp, n) : mi_strndup(tmp, n));
       if (s) { if (memcmp(s, tmp, outlen) != 0 || s[outlen] != 0) sim_violation("api_contract", "strdup/strndup result differs from its source"); }
       r.p = s; break; }
+    // the throwing operator-new entry points (they abort on failure in a C build: only generated where nothing can fail)
+    case OP_new_plain: r.req = a; r.p = mi_new(a); break;
+    case OP_new_n: r.req = a * b; r.p = mi_new_n(a, b); break;
+    case OP_new_aligned: r.req = a; r.align = b; r.p = mi_new_aligned(a, b); break;
+    case OP_heap_alloc_new: r.req = a; r.p = h ? mi_heap_alloc_new(h, a) : mi_new(a); break;
+    case OP_heap_alloc_new_n: r.req = a * b; r.p = h ? mi_heap_alloc_new_n(h, a, b) : mi_new_n(a, b); break;
     case OP_new_nothrow: r.req = a; r.p = mi_new_nothrow(a); break;
     case OP_new_aligned_nothrow: r.req = a; r.align = b; r.p = mi_new_aligned_nothrow(a, b); break;
     default: r.called = false; break;
@@ -275,7 +281,7 @@ static void do_alloc(const Op& op) {
   int mh = heap_for_alloc(op);
   switch (op.code) {   // entry points without a per-heap variant always use the default heap
     case OP_zalloc_small: case OP_posix_memalign: case OP_memalign: case OP_aligned_alloc: case OP_valloc: case OP_pvalloc:
-    case OP_new_nothrow: case OP_new_aligned_nothrow: mh = -2; break;
+    case OP_new_nothrow: case OP_new_aligned_nothrow: case OP_new_plain: case OP_new_n: case OP_new_aligned: mh = -2; break;
     default: break;
   }
   mi_heap_t* h = (mh >= 0 ? heap_ptr(mh) : nullptr);
@@ -359,7 +365,7 @@ static void do_realloc(const Op& op) {
   if (s < 0 || s >= (int)H.slots.size() || g_busy[s]) { H.ops_noop++; return; }
   Block* old = H.slots[s];
   int mh = heap_for_alloc(op);
-  if (op.code == OP_reallocarray || op.code == OP_reallocarr || op.code == OP_expand) mh = -2;
+  if (op.code == OP_reallocarray || op.code == OP_reallocarr || op.code == OP_expand || op.code == OP_new_realloc || op.code == OP_new_reallocn) mh = -2;
   mi_heap_t* h = (mh >= 0 ? heap_ptr(mh) : nullptr);
   const uint64_t a = op.a, bb = op.b, c = op.c, d = op.d;
   void* p = old ? old->p : nullptr;
@@ -387,6 +393,8 @@ static void do_realloc(const Op& op) {
     case OP_reallocarray: newreq = mul(a, bb); q = mi_reallocarray(p, a, bb); if (q == nullptr && errno != ENOMEM) sim_violation("api_contract", "mi_reallocarray failed without setting errno to ENOMEM (errno=%d)", errno); break;
     case OP_reallocarr: { newreq = mul(a, bb); void* pp = p; rc = mi_reallocarr(&pp, a, bb); q = (rc == 0 ? pp : nullptr);
       if (rc != 0 && pp != p) sim_violation("api_contract", "mi_reallocarr failed (%d) but changed the pointer", rc); break; }
+    case OP_new_realloc: newreq = a; q = mi_new_realloc(p, a); break;
+    case OP_new_reallocn: newreq = mul(a, bb); q = mi_new_reallocn(p, a, bb); break;
     case OP_expand: newreq = a; is_expand = true; q = mi_expand(p, a); break;
     default: break;
   }
